@@ -5,7 +5,7 @@ import io
 
 from buidl.ecc import PrivateKey, S256Point
 from buidl.script import P2TRScriptPubKey, Script
-from buidl.taproot import ControlBlock, TapBranch, TapLeaf
+from buidl.taproot import ControlBlock, TapBranch, TapLeaf, TapScript
 from buidl.tx import Tx, TxIn, TxOut
 from buidl.witness import Witness
 
@@ -29,7 +29,14 @@ TRUSTED = ["hashlib (sha256) — sha256 is a universally quantified function in 
            "modelled, not verified: Script.parse / raw_serialize are the shared Model/Script.v (owner C04)"]
 # 256-bit curve arithmetic is never evaluated inside Coq (DESIGN §3): only the hash/codec functions are self-checked
 VM_SKIP = ("control_block", "tree_external_pubkey", "cb_parse", "cb_external_pubkey", "tweaked_key",
-           "priv_tweaked_key", "pubkey", "witness_control_block", "commit_check")
+           "priv_tweaked_key", "pubkey", "witness_control_block", "commit_check",
+           "leaf_control_block_default", "witness_tap_leaf", "witness_tap_leaf_hash", "spend_pipeline")
+RULE += (" Deepening: ControlBlock.__eq__ (equal / different in each field, the other y above one x, version+parity "
+         "sums that coincide, unserialisable operands), TapLeaf.control_block(key) without a leaf argument, "
+         "TapScript.tap_leaf(), Witness.tap_leaf() on honest and malformed witnesses, the whole honest pipeline "
+         "(build, serialize, parse, ==, commitment check) as one composition per leaf, converse codec round trip "
+         "serialize(parse(raw)) == raw on accepted byte strings of every length class, control blocks of the "
+         "mirrored tree, perturbed trees (root must change), the .raw-shadowed leaf (known finding).")
 ASSUMPTIONS = ["leaf version 0x50 is excluded from honest spends (BIP341 forbids it: the control block would be "
                "taken for an annex); it stays in the codec and recomputation cases",
                "(e + t) mod n = 0 and output key at infinity are side conditions of the theorems (no input exhibits them)"]
@@ -232,6 +239,41 @@ IMPL = {
     "commit_check": i_commit_check,
     "combine": lambda ts: enc_tree(TapBranch.combine([mk_tree(t) for t in ts])),
 }
+
+
+def enc_leaf(l):
+    return [l.tapleaf_version, enc_script(l.tap_script)]
+
+
+def mk_tapscript(sv):
+    s = TapScript(list(sv[0]))
+    if sv[1]:
+        s.raw = sv[1][0]
+    return s
+
+
+def i_spend_pipeline(tv, pv, lv):
+    """build the control block, serialize, parse, ==, commitment check on [raw leaf script, control block]"""
+    tree, P, leaf = mk_tree(tv), mk_point(pv), mk_leaf(lv)
+    cb = tree.control_block(P, leaf)
+    if cb is None:
+        raise ValueError("leaf not in the tree")
+    raw = cb.serialize()
+    back = ControlBlock.parse(raw)
+    e = back == cb
+    rs = leaf.tap_script.raw_serialize()
+    q = tree.external_pubkey(P).xonly()
+    return [raw, bool(e), bool(i_commit_check(q, [rs, raw]))]
+
+
+IMPL.update({
+    "cb_eq": lambda a, b: bool(mk_cb(a) == mk_cb(b)),
+    "leaf_control_block_default": lambda lv, pv: enc_cb(mk_leaf(lv).control_block(mk_point(pv))),
+    "tap_leaf_default": lambda sv: enc_leaf(mk_tapscript(sv).tap_leaf()),
+    "witness_tap_leaf": lambda items: enc_leaf(Witness(list(items)).tap_leaf()),
+    "witness_tap_leaf_hash": lambda items: Witness(list(items)).tap_leaf().hash(),
+    "spend_pipeline": i_spend_pipeline,
+})
 IMPL = {k: _quiet(v) for k, v in IMPL.items()}
 
 
@@ -787,16 +829,125 @@ def p_reuse_witness(items, pool, seed, nops):
 ERR_ = "raises"
 
 
+def p_cb_converse(raw):
+    """ControlBlock.parse accepts exactly the lengths 33 + 32m (m <= 128) whose key bytes lift; every accepted
+    byte string is the serialisation of what it parses to; == of parsed blocks is equality of the bytes"""
+    n = len(raw)
+    len_ok = n % 32 == 1 and 33 <= n <= 33 + 32 * 128
+    x = int.from_bytes(raw[1:33], "big") if n >= 33 else None
+    key_ok = len_ok and (x == 0 or ref_lift_x(x) is not None)
+    try:
+        cb = ControlBlock.parse(raw)
+    except Exception:
+        return "control block of an accepted length with a liftable key rejected" if key_ok else None
+    if not key_ok:
+        return f"control block of length {n} accepted" if not len_ok else "control block whose key bytes do not lift accepted"
+    if cb.serialize() != raw:
+        return "serialize(parse(raw)) differs from raw"
+    if cb.tapleaf_version % 2 or not 0 <= cb.tapleaf_version <= 254 or cb.parity not in (0, 1) \
+            or cb.tapleaf_version + cb.parity != raw[0] or len(cb.hashes) != (n - 33) // 32 \
+            or any(len(h) != 32 for h in cb.hashes) or b"".join(cb.hashes) != raw[33:]:
+        return "parsed fields are not the slices of the input"
+    if not (cb == ControlBlock.parse(raw)):
+        return "two parses of the same bytes are not =="
+    for pos in {0, 1, 32, n - 1}:
+        other = raw[:pos] + bytes([raw[pos] ^ 1]) + raw[pos + 1:]
+        try:
+            cb2 = ControlBlock.parse(other)
+        except Exception:
+            continue
+        if cb2 == cb:
+            return f"control blocks parsed from byte strings that differ at {pos} are =="
+    return None
+
+
+def p_sibling_cb(tv, bits, pv):
+    """the control blocks built by the tree with rearranged siblings recompute the root and output key of the
+    original tree, for every leaf"""
+    tree = mk_tree(tv)
+    P = mk_point(pv)
+    root = tree.hash()
+    ext = tree.external_pubkey(P)
+    other = mk_tree(_mirror(tv, bits))
+    if sorted(map(repr, tree_leaves(_mirror(tv, bits)))) != sorted(map(repr, tree_leaves(tv))):
+        return "harness: mirror changed the leaves"
+    for lv in tree_leaves(tv):
+        leaf = mk_leaf(lv)
+        cb = other.control_block(P, leaf)
+        if cb is None:
+            return "no control block in the rearranged tree"
+        if cb.merkle_root(leaf.tap_script) != root:
+            return "control block of the rearranged tree recomputes another root"
+        back = ControlBlock.parse(cb.serialize())
+        q = back.external_pubkey(leaf.tap_script)
+        if q != ext or q.parity != cb.parity:
+            return "control block of the rearranged tree recomputes another output key / parity"
+    return None
+
+
+def _perturb(tv, k, path):
+    """tree value with the leaf reached by path changed: k=0 version, k=1 one script byte, k=2 replaced by a
+    branch of two copies, k=3 an extra opcode"""
+    if tv[0] == 1:
+        if path and path[0]:
+            return [1, tv[1], _perturb(tv[2], k, path[1:])]
+        return [1, _perturb(tv[1], k, path[1:]), tv[2]]
+    ver, sv = tv[1], tv[2]
+    cmds = list(sv[0])
+    if k == 0:
+        return [0, ver ^ 2, sv]
+    if k == 1:
+        d = cmds[0]
+        cmds[0] = bytes([d[0] ^ 1]) + d[1:]
+        return [0, ver, [cmds, []]]
+    if k == 2:
+        return [1, tv, tv]
+    return [0, ver, [cmds + [0x51], []]]
+
+
+def p_binding(tv, k, path):
+    """a tree that differs in one leaf (version, script byte, shape, extra opcode) has another merkle root and
+    another output key under the same internal key"""
+    other = _perturb(tv, k, path)
+    if mk_tree(tv).hash() == mk_tree(other).hash():
+        return "two different trees have the same merkle root"
+    return None
+
+
+def p_raw_shadow(cmds, raw):
+    """a leaf whose script kept a .raw (inexact parse) placed after a leaf with equal commands: the control block
+    the library builds for it must recompute the tree's root from the leaf's own script"""
+    s1 = Script(list(cmds))
+    s2 = Script.parse(raw=raw)
+    if s2.commands != s1.commands or s2.raw is None:
+        return None
+    l1, l2 = TapLeaf(s1), TapLeaf(s2)
+    tree = TapBranch(l1, l2)
+    P = S256Point.parse_xonly(G_[0].to_bytes(32, "big"))
+    cb = tree.control_block(P, l2)
+    if cb is None:
+        return "no control block for a leaf of the tree"
+    if cb.merkle_root(l2.tap_script) != tree.hash():
+        return "RAWSHADOW: the control block built for the second of two == leaves (equal commands, different " \
+               "serialisation because one script kept its .raw) is the path of the FIRST leaf and does not " \
+               "recompute the root from the second leaf's own script"
+    return None
+
+
 def classify(v):
     if v.get("kind") == "prop" and v.get("name") == "noncanonical" and "NONCANONICAL" in (v.get("detail") or ""):
         return "K-C12-leafhash-reserialised"
+    if v.get("kind") == "prop" and v.get("name") == "raw_shadow" and "RAWSHADOW" in (v.get("detail") or ""):
+        return "K-C12-raw-shadowed-leaf"
     return None
 
 
 PROPS = {k: _quiet(v) for k, v in {"reuse_tree": p_reuse_tree, "reuse_cb": p_reuse_cb, "reuse_key": p_reuse_key,
                                    "tagged_order": p_tagged_order, "reuse_witness": p_reuse_witness,
                                    "annex": p_annex, "noncanonical": p_noncanonical, "tree": p_tree, "sibling": p_sibling, "priv_pub": p_priv_pub, "spend": p_spend,
-                                   "tamper": p_tamper, "cb_codec": p_cb_codec}.items()}
+                                   "tamper": p_tamper, "cb_codec": p_cb_codec, "cb_converse": p_cb_converse,
+                                   "sibling_cb": p_sibling_cb, "binding": p_binding,
+                                   "raw_shadow": p_raw_shadow}.items()}
 
 # ------------------------------------------------------------------ generators
 
@@ -1071,3 +1222,79 @@ def generate(ctx):
         pool.append(cb.serialize())
         ctx.label("reuse/witness")
         yield ("prop", "reuse_witness", [[pool[-2] if len(lvs) > 1 else pool[8], pool[-1]], pool, r.getrandbits(30), ctx.n(60, 120)])
+    # ------------------------------------------------------------------ deepening cases
+    # --- ControlBlock.__eq__
+    other_y = [pe[0], P_ - pe[1]]
+    base = [0xc0, 0, pe, [ctx.rbytes(32), ctx.rbytes(32)]]
+    variants = [base, [0xc2, 0, pe, base[3]], [0xc0, 1, pe, base[3]], [0xc0, 0, po, base[3]], [0xc0, 0, other_y, base[3]],
+                [0xc0, 0, pe, base[3][:1]], [0xc0, 0, pe, base[3] + [bytes(32)]], [0xc0, 0, pe, [base[3][1], base[3][0]]],
+                [0xc1, 0, pe, base[3]], [0xc0, 0, pe, [base[3][0] + base[3][1]]], [0x1ff, 0, pe, []], [0xc0, 0, [], base[3]],
+                [0xc0, 0, pe, []], [-1, 1, pe, base[3]]]
+    for a in variants:
+        for b in variants:
+            ctx.label("cb_eq/" + ("same" if a is b else "other"))
+            yield ("corr", "cb_eq", [a, b])
+    # --- TapLeaf.control_block(key) without a leaf argument, TapScript.tap_leaf()
+    for lv in [[0xc0, [[b"k", 0xac], []]], [0xc2, [[0x51], []]], [0xc0, [[ctx.rbytes(521)], []]], [0x100, [[0x51], []]],
+               [0xc0, [[0x51], [b"\x02\xaa"]]], [0x50, [[0x51], []]]]:
+        for pv in (pe, po, []):
+            ctx.label("leaf_control_block_default")
+            yield ("corr", "leaf_control_block_default", [lv, pv])
+        yield ("corr", "tap_leaf_default", [lv[1]])
+    # --- Witness.tap_leaf on honest, tampered and malformed witnesses
+    for tv, pv, n in spend_cases[: ctx.n(6, 40)]:
+        lvs = tree_leaves(tv)
+        lv = lvs[r.randrange(len(lvs))]
+        cb = mk_tree(tv).control_block(mk_point(pv), mk_leaf(lv))
+        items = [mk_leaf(lv).tap_script.raw_serialize(), cb.serialize()]
+        for it in (items, items + [b"\x50" + ctx.rbytes(2)], [b"\x01"] + items, items[:1], items[1:], [items[1], items[0]],
+                   [items[0][:-1], items[1]], [items[0], items[1][:-1]], [b"\x4c" + items[0], items[1]],
+                   [items[0], b"\x50" + items[1][1:]]):
+            ctx.label("witness_tap_leaf")
+            yield ("corr", "witness_tap_leaf", [it])
+            yield ("corr", "witness_tap_leaf_hash", [it])
+    for items in [[], [b""], [b"\x50"], [b"a", b"\x50"], [b"\x02\xaa", bytes([0xc0]) + G_[0].to_bytes(32, "big")],
+                  [b"\x4d\xff", bytes([0xc1]) + G_[0].to_bytes(32, "big") + bytes(32)]]:
+        yield ("corr", "witness_tap_leaf", [items])
+        yield ("corr", "witness_tap_leaf_hash", [items])
+    # --- the whole honest pipeline as one composition, per leaf; control blocks of the mirrored tree; binding
+    for i, (tv, pv, n) in enumerate(spend_cases[: ctx.n(8, 60)]):
+        lvs = tree_leaves(tv)
+        for lv in r.sample(lvs, min(len(lvs), 2)):
+            ctx.label("spend_pipeline/honest")
+            yield ("corr", "spend_pipeline", [tv, pv, lv])
+        if i < ctx.n(3, 25):
+            ctx.label("sibling/control-blocks-of-mirrored-tree")
+            yield ("prop", "sibling_cb", [tv, r.getrandbits(max(1, n - 1)) | 1, pv])
+        for k in range(4):
+            ctx.label("binding/perturbed-tree")
+            yield ("prop", "binding", [tv, k, [r.randrange(2) for _ in range(8)]])
+    yield ("corr", "spend_pipeline", [tv, pv, stranger])
+    yield ("corr", "spend_pipeline", [tv, [], tree_leaves(tv)[0]])
+    yield ("corr", "spend_pipeline", [[0, 0x50, [[0x51], []]], pe, [0x50, [[0x51], []]]])      # version 0x50: an "annex"
+    yield ("corr", "spend_pipeline", [[0, 0xc1, [[0x51], []]], pe, [0xc1, [[0x51], []]]])      # odd version
+    # the .raw-shadowed leaf (Coq: C12_every_leaf_own_script_refuted): model and code agree on it
+    s_first, s_second = [[b"\xaa"], []], [[b"\xaa"], [b"\x02\xaa"]]
+    shadow = [1, [0, 0xc0, s_first], [0, 0xc0, s_second]]
+    for lv in ([0xc0, s_first], [0xc0, s_second]):
+        ctx.label("raw-shadowed-leaf")
+        yield ("corr", "path_hashes", [shadow, lv])
+        yield ("corr", "control_block", [shadow, pe, lv])
+        yield ("corr", "spend_pipeline", [shadow, pe, lv])
+    yield ("corr", "tree_hash", [shadow])
+    yield ("corr", "witness_tap_script", [[b"\x02\xaa", b""]])
+    yield ("prop", "raw_shadow", [[b"\xaa"], b"\x02\xaa"])
+    yield ("prop", "raw_shadow", [[b"\xaa", 0x51], b"\x01\xaa\x51"])            # exact parse: no .raw, nothing shadowed
+    # --- converse codec round trip on every length class
+    xs_ok = [G_[0], pe[0], po[0], 0]
+    for m in [0, 1, 2, 3, 127, 128, 129]:
+        for _ in range(ctx.n(1, 4)):
+            raw = bytes([r.randrange(256)]) + r.choice(xs_ok).to_bytes(32, "big") + ctx.rbytes(32 * m)
+            ctx.label(f"cb_converse/m={'>128' if m > 128 else m}")
+            yield ("prop", "cb_converse", [raw])
+            if m <= 3:
+                yield ("prop", "cb_converse", [raw[:-1]])
+                yield ("prop", "cb_converse", [raw + b"\x00"])
+    for _ in range(ctx.n(20, 300)):
+        n = r.choice([33, 65, 97, 33, r.randrange(0, 140)])
+        yield ("prop", "cb_converse", [ctx.rbytes(n)])
